@@ -127,9 +127,6 @@ func (r *run) finish(a *arrival, wrote string) {
 	now := time.Now()
 	r.mu.Lock()
 	a.Wrote, a.DoneAt, a.DoneUs = wrote, now, now.Sub(r.start()).Microseconds()
-	if wrote == "partial" && r.sc.Proto != "Http1" {
-		r.poison[[2]int{a.Host, a.Conn}] = true
-	}
 	r.mu.Unlock()
 }
 
@@ -186,6 +183,18 @@ func (r *run) act(a *arrival, c net.Conn, wmu *sync.Mutex, full []byte, cut int)
 	write := func(b []byte) error {
 		wmu.Lock()
 		defer wmu.Unlock()
+		key := [2]int{a.Host, a.Conn}
+		r.mu.Lock()
+		garbled := r.poison[key]
+		if !garbled && len(b) < len(full) && r.sc.Proto != "Http1" {
+			// bolt multiplexes attempts on one connection: after part of a frame nothing else may be written on it
+			// (a later frame would only complete a garbled one - malformed upstream input is C08's subject)
+			r.poison[key] = true
+		}
+		r.mu.Unlock()
+		if garbled {
+			return errors.New("connection carries a partial frame")
+		}
 		_ = c.SetWriteDeadline(time.Now().Add(5 * time.Second))
 		_, err := c.Write(b)
 		return err
@@ -206,8 +215,11 @@ func (r *run) act(a *arrival, c net.Conn, wmu *sync.Mutex, full []byte, cut int)
 		r.finish(a, "full")
 		return false
 	case "partial-stall":
-		_ = write(full[:cut])
-		r.finish(a, "partial")
+		if write(full[:cut]) != nil {
+			r.finish(a, "")
+		} else {
+			r.finish(a, "partial")
+		}
 		<-r.done
 		return true
 	case "reset":
@@ -623,7 +635,7 @@ func runScenario(sc *Scenario) (res *result) {
 			return rs
 		}
 	}
-	cs, err := mesh.NewCase(opts)
+	cs, err := mesh.NewCaseBound(opts)
 	if err != nil {
 		res.Infra = "new case: " + err.Error()
 		return
